@@ -141,11 +141,32 @@ class Ctx:
         t0 = time.time()
         r = subprocess.run(cmd, stdout=subprocess.PIPE, stderr=subprocess.PIPE, text=True)
         if r.returncode != 0:
-            # the driver itself died: that is an observation about the code under test (abort), keep what was logged
-            self.notes.append("driver %s exited with %s" % (label, r.returncode))
+            # the driver process died: the code under test aborted / crashed inside the history it had just begun.
+            # That is an observation no specification action allows.
+            hs = [l for l in r.stdout.splitlines() if l.startswith("H ")]
+            lasth = hs[-1][2:] if hs else "?"
+            self.notes.append("driver %s exited with %s in history %s" % (label, r.returncode, lasth))
+            props, sig = attribute_event(None, {"ev": "abort"})
+            rec = {"driver": " ".join(cmd), "returncode": r.returncode, "history": lasth, "profile": profile,
+                   "attributed_to": sorted(props), "signature": sig, "driver_mode": True,
+                   "note": "the process running the real crate died in this (seed-determined) history"}
+            if self.prop in props:
+                self.add_violation(rec, "the random driver process died (abort/crash in the code under test) in history %s" % lasth)
+            else:
+                self.other.append({"attributed_to": sorted(props), "signature": sig})
+            # keep only complete lines of what was logged before the crash
+            if os.path.exists(logp):
+                good = []
+                with open(logp) as f:
+                    for line in f:
+                        try:
+                            json.loads(line)
+                            good.append(line)
+                        except ValueError:
+                            break
+                with open(logp, "w") as f:
+                    f.writelines(good)
             if not os.path.exists(logp) or core.count_lines(logp) == 0:
-                self.add_violation({"driver": cmd, "returncode": r.returncode, "stderr": r.stderr[-2000:]},
-                                   "the random driver crashed (abort in the code under test) before logging anything")
                 return
         if filter_event is not None:
             tmp = logp + ".sel"
@@ -198,6 +219,16 @@ class Ctx:
                     self.add_violation(rec, "driver trace rejected at %s" % json.dumps({k: v for k, v in ev.items() if k not in ("before", "after")})[:300])
             else:
                 self.other.append({"attributed_to": sorted(props), "signature": sig})
+
+    def random_cases_validate(self, label, generate, module, attribute, attribute_event, profile="dev", elem="u32", invariants=()):
+        """Large random cases (no expectations) -> real crate with event logging -> TLC trace validation."""
+        cases_path = os.path.join(self.outdir, "%s.random.cases.ndjson" % label)
+        n = generate(cases_path)
+        self.count_nontrivial(cases_path, lambda c: c)
+        if len(self.samples) < 8:
+            self.samples.append({"random_case": core.read_case(cases_path, 0)})
+        self.replay_and_validate(cases_path, attribute, attribute_event, module=module, profile=profile, elem=elem,
+                                 label=label + "-random", invariants=invariants)
 
     def count_nontrivial(self, cases_path, keyfn):
         """keyfn(case) -> hashable key or None (trivial)."""
